@@ -912,7 +912,12 @@ class HfProtocol(utils.EventEmitter):
                 supported_values.extend([v for v in range(value_min, value_max + 1)])
 
             self.ag_indicators.append(
-                AgIndicatorState(description, index, set(supported_values), 0)
+                AgIndicatorState(
+                    indicator=description,
+                    supported_values=set(supported_values),
+                    current_status=0,
+                    index=index,
+                )
             )
 
         # Once the HF has the necessary supported indicator and ordering
